@@ -226,12 +226,21 @@ class CFG:
     def find(self, pred):
         return [n for n in self.nodes if n.ast is not None and pred(n)]
 
-    def paths_avoiding(self, start, is_target, correlate=True):
+    def paths_avoiding(self, start, is_target, correlate=True, assume=None, effects=None, stop_at_exits=True):
         """DFS from `start` (exclusive). Returns a list of offending paths (lists of nodes) that reach
-        exit / raise_exit without passing a node for which is_target(node) holds.  Branch tests with
-        identical text are treated as correlated while none of their variables is reassigned."""
+        exit / raise_exit without passing a node for which is_target(node) holds.
+
+        Branch tests are evaluated three-valued over *atomic facts* (text -> bool): facts come from
+        `assume`, from the guards enclosing `start`, and from branches already taken on the path
+        (a compound test contributes the atoms it implies).  A fact is dropped when one of the
+        names it mentions is assigned; `effects(stmt_ast)` may return {fact_text: bool | None}
+        for interprocedural effects (None = forget)."""
+        from . import guards
+
         bad = []
         init_facts = self._facts_at(start) if correlate else {}
+        if assume:
+            init_facts.update(assume)
         stack = [(start, init_facts, [start])]
         seen = set()
         while stack:
@@ -239,14 +248,25 @@ class CFG:
             for nxt, label in node.succ:
                 nfacts = dict(facts)
                 if node.kind == "test" and label in ("T", "F") and node.ast is not None and correlate:
-                    txt = ast.unparse(node.ast)
-                    if txt in facts and facts[txt] != (label == "T"):
-                        continue  # infeasible: same test, different outcome
-                    nfacts[txt] = label == "T"
+                    want = label == "T"
+                    val = _eval3(node.ast, facts)
+                    if val is not None and val != want:
+                        continue  # infeasible under the facts known on this path
+                    for t, pol in guards._split_bool(node.ast, want):
+                        try:
+                            nfacts[ast.unparse(t)] = pol
+                        except Exception:  # noqa: BLE001
+                            pass
                 if nxt.ast is not None and nxt.kind == "stmt" and correlate:
                     killed = _assigned_names(nxt.ast)
                     if killed:
                         nfacts = {k: v for k, v in nfacts.items() if not (_names(k) & killed)}
+                    if effects is not None:
+                        for k, v in (effects(nxt.ast) or {}).items():
+                            if v is None:
+                                nfacts.pop(k, None)
+                            else:
+                                nfacts[k] = v
                 if nxt is self.exit or nxt is self.raise_exit:
                     bad.append(path + [nxt])
                     continue
@@ -273,6 +293,28 @@ class CFG:
             except Exception:  # noqa: BLE001
                 pass
         return facts
+
+
+def _eval3(test, facts):
+    """Three-valued evaluation of a branch test over atomic facts (text -> bool)."""
+    txt = ast.unparse(test)
+    if txt in facts:
+        return facts[txt]
+    if isinstance(test, ast.UnaryOp) and isinstance(test.op, ast.Not):
+        v = _eval3(test.operand, facts)
+        return None if v is None else (not v)
+    if isinstance(test, ast.BoolOp):
+        vals = [_eval3(v, facts) for v in test.values]
+        if isinstance(test.op, ast.And):
+            if any(v is False for v in vals):
+                return False
+            return True if all(v is True for v in vals) else None
+        if any(v is True for v in vals):
+            return True
+        return False if all(v is False for v in vals) else None
+    if isinstance(test, ast.Constant):
+        return bool(test.value)
+    return None
 
 
 _names_cache = {}
